@@ -25,6 +25,7 @@ import (
 	"google.golang.org/genproto/googleapis/rpc/status"
 	"google.golang.org/protobuf/encoding/protojson"
 	"google.golang.org/protobuf/proto"
+	"google.golang.org/protobuf/reflect/protoreflect"
 	"google.golang.org/protobuf/types/known/anypb"
 	"google.golang.org/protobuf/types/known/durationpb"
 	"google.golang.org/protobuf/types/known/emptypb"
@@ -105,10 +106,75 @@ type c13Err struct {
 	Msg     string   `json:"msg"`     // always valid UTF-8
 	Details []string `json:"details"` // names into c13DetailAlphabet
 	Meta    string   `json:"meta"`    // name into c13MetaAlphabet
+	// round 5: how type URLs are written wherever a rendering of the error contains one.
+	// "" = the default prefix "type.googleapis.com/"; "-" = no prefix at all; anything else is the prefix itself.
+	URLPrefix   string `json:"url_prefix,omitempty"`   // type URL of the details (Any in grpc-status-details-bin, Any handed to connect-go, "@type" of a debug member in Any form)
+	InnerPrefix string `json:"inner_prefix,omitempty"` // type URLs INSIDE the detail messages (an Any detail, the details of a google.rpc.Status detail)
+	DebugAny    bool   `json:"debug_any,omitempty"`    // the optional "debug" member is the JSON form of the detail's Any ("@type" present), not of the message
 }
 
 func (e c13Err) String() string {
-	return fmt.Sprintf("code=%d msg=%q details=%v meta=%s", e.Code, e.Msg, e.Details, e.Meta)
+	s := fmt.Sprintf("code=%d msg=%q details=%v meta=%s", e.Code, e.Msg, e.Details, e.Meta)
+	if e.URLPrefix != "" || e.InnerPrefix != "" || e.DebugAny {
+		s += fmt.Sprintf(" url-prefix=%q inner-prefix=%q debug-any=%v", c13URLPrefix(e.URLPrefix), c13URLPrefix(e.InnerPrefix), e.DebugAny)
+	}
+	return s
+}
+
+// c13URLPrefix: the prefix a c13Err field stands for.
+func c13URLPrefix(field string) string {
+	switch field {
+	case "":
+		return "type.googleapis.com/"
+	case "-":
+		return ""
+	}
+	return field
+}
+
+// c13AnyOf packs m into an Any whose type URL is prefix + full name (anypb.New always writes the default prefix).
+func c13AnyOf(m proto.Message, prefix string) *anypb.Any {
+	return &anypb.Any{TypeUrl: prefix + string(m.ProtoReflect().Descriptor().FullName()), Value: c13MustMarshal(m)}
+}
+
+// c13ReprefixAnys returns a copy of m in which every google.protobuf.Any reachable through message fields
+// (m itself included) has the prefix of its type URL (everything up to the last '/') replaced.
+func c13ReprefixAnys(m proto.Message, prefix string) proto.Message {
+	out := proto.Clone(m)
+	var walk func(pm protoreflect.Message)
+	walk = func(pm protoreflect.Message) {
+		if a, ok := pm.Interface().(*anypb.Any); ok {
+			a.TypeUrl = prefix + a.TypeUrl[strings.LastIndexByte(a.TypeUrl, '/')+1:]
+			return
+		}
+		pm.Range(func(fd protoreflect.FieldDescriptor, v protoreflect.Value) bool {
+			switch {
+			case fd.IsMap():
+				if fd.MapValue().Message() != nil {
+					v.Map().Range(func(_ protoreflect.MapKey, mv protoreflect.Value) bool { walk(mv.Message()); return true })
+				}
+			case fd.Message() == nil:
+			case fd.IsList():
+				for i := 0; i < v.List().Len(); i++ {
+					walk(v.List().Get(i).Message())
+				}
+			default:
+				walk(v.Message())
+			}
+			return true
+		})
+	}
+	walk(out.ProtoReflect())
+	return out
+}
+
+// detailMsg: the detail message as this error carries it (type URLs inside it rewritten when InnerPrefix is set).
+func (e c13Err) detailMsg(name string) proto.Message {
+	m := c13Detail(name)
+	if e.InnerPrefix != "" {
+		m = c13ReprefixAnys(m, c13URLPrefix(e.InnerPrefix))
+	}
+	return m
 }
 
 // Code names written from the Connect protocol specification (error codes
@@ -301,7 +367,7 @@ func c13CloneHeaders(in []*conformancev1.Header) []*conformancev1.Header {
 func c13DetailAnys(e c13Err) []*anypb.Any {
 	out := make([]*anypb.Any, len(e.Details))
 	for i, d := range e.Details {
-		out[i] = c13MustAny(c13Detail(d))
+		out[i] = c13AnyOf(e.detailMsg(d), c13URLPrefix(e.URLPrefix))
 	}
 	return out
 }
@@ -575,13 +641,17 @@ func c13ErrTree(e c13Err, withDebug, emitMsg bool) *c13J {
 	if len(e.Details) > 0 {
 		arr := c13Arr()
 		for _, name := range e.Details {
-			m := c13Detail(name)
+			m := e.detailMsg(name)
 			data, err := proto.Marshal(m)
 			if err != nil {
 				panic(err)
 			}
 			d := c13Obj("type", c13S(string(m.ProtoReflect().Descriptor().FullName())), "value", c13S(c13B64(data)))
-			if withDebug {
+			switch {
+			case withDebug && e.DebugAny:
+				// what an encoder writes that marshals the detail's Any (not the message in it) with protobuf JSON
+				d.set("debug", c13ParseJSON(c13DebugJSON(c13AnyOf(m, c13URLPrefix(e.URLPrefix)))))
+			case withDebug:
 				d.set("debug", c13ParseJSON(c13DebugJSON(m)))
 			}
 			arr.Elems = append(arr.Elems, d)
